@@ -227,6 +227,10 @@ func runC16SFTP(c *fw.Case) {
 }
 
 func runC16(c *fw.Case) {
+	if desyncBin() != "" && c.Chance(1, 120, "c16.proc") {
+		runC16Proc(c)
+		return
+	}
 	if c.Chance(1, 12, "c16.s3") {
 		runC16S3(c)
 		return
